@@ -15,7 +15,7 @@ import c11_gen as G
 
 META = {
     "category": "proof",
-    "text": "Coq theorems (Cursor/Props_C11.v, all closed under the global context) over executable models of sst's MergingCursor (array heap, Forward/Reverse comparator, direction switch), ConcatenatingCursor (binary search over last keys, walk across exhausted children), PruningCursor (skip key, the three nested loops of prev), BoundsCursor (before/positioned/after machine, all nine bound combinations incl. empty and inverted) and LazyCursor: each, over ARBITRARY child cursors that behave as reference cursors, gives for every finite program of seek_to_first/seek_to_last/seek/prev/next the same key_value() observations as sst::reference::ReferenceCursor over the specified list, never fails and never runs out of loop fuel; the theorems compose to arbitrary nestings (C11_compose), in particular the cursor over a compaction's inputs / the garbage collector's cursor that lsmtk builds (C11_compaction_input, C11_compaction_walk_reads_sorted_union, C11_gc_input; the range-scan nestings are C03's). Storage errors: a second set of models (Cursor/F*.v) transcribes every `?` of the five files (where each combinator returns on a child's Err and what it leaves behind); proved for every nesting, every program and every failure schedule of every leaf: every Err is reported and is exactly one failure consumed (C11_errors_reported), everything returned before the first Err equals the reference (C11_errors_before_first), and after an Err every successful seek/seek_to_first/seek_to_last and everything after it up to the next Err equals the reference again (C11_absolute_calls_recover_after_error); next/prev between an Err and the next successful absolute call are unspecified (C11_failed_call_is_not_a_noop; counted in the evidence as dirty_relative_observations, informational). The models are tied to the code by differential runs (Rust vs extracted model vs an independent Python rendering of the specification): without errors on structure-aware generated families, with errors using a cursor that returns Err on schedule at every leaf (compared at EVERY position, incl. after errors), and on lsmtk's compaction/GC nesting built with the same constructor calls over real SstCursors.",
+    "text": "Coq theorems (Cursor/Props_C11.v, all closed under the global context) over executable models of sst's MergingCursor (array heap, Forward/Reverse comparator, direction switch), ConcatenatingCursor (binary search over last keys, walk across exhausted children), PruningCursor (skip key, the three nested loops of prev), BoundsCursor (before/positioned/after machine, all nine bound combinations incl. empty and inverted) and LazyCursor: each, over ARBITRARY child cursors that behave as reference cursors, gives for every finite program of seek_to_first/seek_to_last/seek/prev/next the same key_value() observations as sst::reference::ReferenceCursor over the specified list, never fails and never runs out of loop fuel; the theorems compose to arbitrary nestings (C11_compose), in particular the cursor over a compaction's inputs / the garbage collector's cursor that lsmtk builds (C11_compaction_input, C11_compaction_walk_reads_sorted_union, C11_gc_input; the range-scan nestings are C03's). Storage errors: a second set of models (Cursor/F*.v) transcribes every `?` of the five files (where each combinator returns on a child's Err and what it leaves behind); proved for every nesting, every program and every failure schedule of every leaf: every Err is reported and is exactly one failure consumed (C11_errors_reported), everything returned before the first Err equals the reference (C11_errors_before_first), and after an Err every successful seek/seek_to_first/seek_to_last and everything after it up to the next Err equals the reference again (C11_absolute_calls_recover_after_error); next/prev between an Err and the next successful absolute call are unspecified (C11_failed_call_is_not_a_noop; counted in the evidence as dirty_relative_observations, informational). The models are tied to the code by differential runs (Rust vs extracted model vs an independent Python rendering of the specification): without errors on structure-aware generated families, with errors using a cursor that returns Err on schedule at every leaf (compared at EVERY position, incl. after errors), and on lsmtk's compaction/GC nesting built with the same constructor calls over real SstCursors. Clone stage: a merging cursor over concrete reference cursors is replaced by its clone() mid-program (mostly while travelling backwards) and must observe what the program without the clone steps observes.",
     "note": "Trusted: Coq kernel; extraction via ExtrOcamlBasic + ocaml/cursor drivers; harness c11 / c11f (FailingCursor: a ReferenceCursor whose n-th call returns Err without moving it; LazyCursor opens failing on schedule); std's binary_search and sort inside ReferenceTable (stated, not transcribed). A failed call is modelled as leaving the leaf where it was (the theorems allow any `junk` that keeps it a cursor). LazyCursor's SstCursor is represented by the table cursor of its entries (C10 relates an SstCursor to its entries); the harness cannot make a real SstCursor return Err, only the open. Merging requires the children's (key,timestamp) pairs to be pairwise distinct; concatenation requires the concatenated entries to be strictly sorted. PruningCursor::prev's logic error is an ordinary Err in the Rust and a sticky failure flag in the model: it only occurs in dirty states, where the model then stops making claims (reported as model_unhealthy in the evidence).",
 }
 
